@@ -812,13 +812,13 @@ var retryAlphabet = []Op{
 	{K: "openfail"}, {K: "failafter", N: 0}, {K: "failafter", N: 2}, {K: "deliver", N: 99}, {K: "deliver", N: 1},
 }
 
-func enumScripts(maxLen int) [][]Op {
+func enumScripts(alphabet []Op, maxLen int) [][]Op {
 	out := [][]Op{{}}
 	prev := [][]Op{{}}
 	for l := 1; l <= maxLen; l++ {
 		var cur [][]Op
 		for _, s := range prev {
-			for _, a := range retryAlphabet {
+			for _, a := range alphabet {
 				cur = append(cur, append(append([]Op{}, s...), a))
 			}
 		}
@@ -901,33 +901,58 @@ func main() {
 		root := vf.NewRand(opts.Seed)
 		rs, rr := root.Split(), root.Split()
 		if opts.Tier == "thorough" {
-			// (a) every well-formed sequence of length <= 5 x every single failure point
+			// (a) every well-formed sequence of length <= 5 on both stores without failures;
+			// every single failure point for all sequences of length <= 4 and for all
+			// sequences of length 5 that contain a commit
 			for _, seq := range enumStoreSeqs(5) {
 				ops := append(append([]Op{}, seq...), probe(1)...)
 				descs = append(descs, Desc{Kind: "store", Store: "mem", Ops: ops})
 				descs = append(descs, Desc{Kind: "store", Store: "file", Ops: ops})
+				if len(seq) > 4 && !hasOp(seq, "commit") {
+					continue
+				}
 				nt := countTicks(seq)
 				for k := 0; k < nt; k++ {
 					descs = append(descs, Desc{Kind: "store", Store: "file", Faults: []int{k}, Ops: ops})
 				}
 			}
-			// (b) every script of length <= 6 on a 12-byte stream, and of length <= 4 on every shorter stream
-			for _, sc := range enumScripts(6) {
-				descs = append(descs, Desc{Kind: "retry", Stream: 12, Ops: sc, Sizes: sizesConst(10, 4)})
+			// (b) 12-byte stream, 4-byte reads: every script of length <= 6 over
+			// {openfail, fail-after-2, deliver-1, deliver-full}, every script of length <= 6
+			// over the failures {openfail, readfail, fail-after-2}, every script of length <= 4
+			// over all five outcomes; streams of 0..11 bytes: every script of length <= 3
+			seen := map[string]bool{}
+			addRetry := func(d Desc) {
+				key := fmt.Sprint(d.Stream, d.Eager, d.Ops, d.Sizes)
+				if !seen[key] {
+					seen[key] = true
+					descs = append(descs, d)
+				}
+			}
+			a5 := retryAlphabet
+			a4 := []Op{a5[0], a5[2], a5[3], a5[4]}
+			af := []Op{a5[0], a5[1], a5[2]}
+			for _, sc := range enumScripts(a4, 6) {
+				addRetry(Desc{Kind: "retry", Stream: 12, Ops: sc, Sizes: sizesConst(10, 4)})
+			}
+			for _, sc := range enumScripts(af, 6) {
+				addRetry(Desc{Kind: "retry", Stream: 12, Ops: sc, Sizes: sizesConst(10, 4)})
+			}
+			for _, sc := range enumScripts(a5, 4) {
+				addRetry(Desc{Kind: "retry", Stream: 12, Ops: sc, Sizes: sizesConst(10, 4)})
 			}
 			for n := 0; n < 12; n++ {
-				for _, sc := range enumScripts(4) {
-					descs = append(descs, Desc{Kind: "retry", Stream: n, Eager: n%2 == 1, Ops: sc, Sizes: sizesConst(n/3+6, 3)})
+				for _, sc := range enumScripts(a5, 3) {
+					addRetry(Desc{Kind: "retry", Stream: n, Eager: n%2 == 1, Ops: sc, Sizes: sizesConst(n/3+5, 3)})
 				}
 			}
 			out.Extra["exhaustive"] = true
-			out.Extra["exhaustive_spaces"] = "store: all well-formed op sequences of length<=5 over {create,write3,commit,wdiscard,open@2,stat,discard} on partition 0, on memoryStore and on fileStore with no failure and with each single failing file operation; " +
-				"retry: all outcome scripts of length<=6 over {openfail,readfail,fail-after-2,deliver-full,deliver-1} on a 12-byte stream with 4-byte reads, and of length<=4 on streams of 0..11 bytes with 3-byte reads"
+			out.Extra["exhaustive_spaces"] = "store: all well-formed op sequences of length<=5 over {create,write3,commit,wdiscard,open@2,stat,discard} on partition 0, on memoryStore and on fileStore without failure; with each single failing file operation for all such sequences of length<=4 and all of length 5 containing a commit; " +
+				"retry: 12-byte stream with 4-byte reads: all outcome scripts of length<=6 over {openfail,fail-after-2,deliver-1,deliver-full}, all of length<=6 over {openfail,readfail,fail-after-2}, all of length<=4 over the five outcomes; streams of 0..11 bytes with 3-byte reads: all scripts of length<=3 over the five outcomes"
 		}
 		// sampled cases (both tiers)
 		ns, nr := 260, 260
 		if opts.Tier == "thorough" {
-			ns, nr = 2000, 3000
+			ns, nr = 1500, 1500
 		}
 		ns *= opts.Scale
 		nr *= opts.Scale
